@@ -6,6 +6,11 @@ HERE = os.path.dirname(os.path.dirname(os.path.abspath(__file__)))
 
 # id -> (category, technique, level text, level note, design ref)
 CHECKS = {
+ "C05": ("exploration",
+         "property-based testing: metadata vs annotations parsed back from the emitted text, reachability model for is_used",
+         "Generated programs with 1-10 bound globals of every object kind, arrays, bindless and unbounded arrays, explicit groups in three spellings, names that are reserved in a target language, reader call graphs and 1-3 pipelines are compiled for four target configurations in all / named / no-pipeline mode. The emitted text is scanned for register / vk::binding / vk::offset / [[id]] annotations, entry points and numthreads, and compared in both directions with the metadata (name, group, slot or inline offset, descriptor type via a per-dialect table, count, bindless and static-sampler flags, inline blocks, stage entry points and thread-group sizes); is_used is compared with reachability over the source call graph. 5 000 cases quick, 100 000 thorough.",
+         "Trusted: the line-oriented annotation scanner and the type tables in harness/src/c05.rs; reachability comes from the generator. Metal without a pipeline emits no argument buffers (counted, not compared). One recorded finding: KF-C05-1 (unbounded arrays).",
+         "DESIGN.md section 3, C05"),
  "C14": ("exploration",
          "property-based testing: metamorphic relations (trivia insertion, k-line shifts)",
          "Generated programs - accepted, or rejected through one injected error (incl. errors inside a macro expansion and inside an included file) - are re-compiled under 6 random trivia variants (blanks, tabs, LF/CRLF, line and block comments, backslash splices at every blank/newline and around brackets, semicolons and commas; never after < or >, never inside a #define's name/parameter adjacency) and, for located diagnostics, with k in {1,2,7,50} blank / comment / CRLF lines at the top of the file holding the error and in other files. Outputs, metadata and verdicts must not change; diagnostics keep file, column and message and move by exactly k lines. 3 000 base programs quick (about 20 compilations each), 60 000 thorough.",
